@@ -26,7 +26,9 @@ def register(reg, S):
             key, inst=label,
             params=dict(cls=_cls(clsp), data=S[dname], prev_event=OptS(S[ename]), bpm_events=S["BPMEvents"]),
             result=S[ename], requires=t["be_pre"], raises=t["raises"], ensures=t["post"] + payload,
-            props=["C01", "C11", "C12"]))
+            # the payload clauses (value / sustain carried over verbatim) are what C07 (instrument
+            # kinds) and C09 (global event kinds) say about the EVENT, beyond the decoded datum
+            props=["C01", "C11", "C12"] + (["C09"] if "globalevents" in key else ["C07"])))
 
     # line decoders of the three global event kinds (one inherited function, three classes)
     for kind in ("Text", "Section", "Lyric"):
